@@ -49,12 +49,30 @@ def build_raw(ops: list[dict], which: str = "A") -> dict:
     return {"openapi": "3.0.2", "info": {"title": "c19-" + which, "version": "1"}, "paths": paths}
 
 
+def _custom_function(by: str, value: str):
+    """A user-written matcher function deciding `attribute == value` / `value in tags` on its own."""
+    def matcher(ctx) -> bool:
+        op = ctx.operation
+        if by == "tag":
+            return value in (op.tags or [])
+        if by == "method":
+            return op.method.upper() == value.upper()
+        if by == "path":
+            return op.path == value
+        return op.label == value
+
+    matcher.__name__ = "user_matcher_%s_%s" % (by, "".join(c if c.isalnum() else "_" for c in value))
+    return matcher
+
+
 def atom_kwargs(atoms: list[dict]) -> dict:
-    """One apply_to / skip_for call: keyword conditions of a conjunction."""
+    """One apply_to / skip_for call: keyword conditions of a conjunction ("func": a custom function, passed positionally)."""
     kw: dict = {}
     for a in atoms:
         by, how = a["by"], a["how"]
-        if how == "value":
+        if how == "func":
+            kw["func"] = _custom_function(by, text(a["v"]))
+        elif how == "value":
             kw[by] = text(a["v"])
         elif how == "list":
             kw[by] = [text(v) for v in a["vs"]]
@@ -66,7 +84,9 @@ def atom_kwargs(atoms: list[dict]) -> dict:
 
 def apply_chain(target, chain: list[dict]):
     for call in chain:
-        target = getattr(target, call["m"])(**atom_kwargs(call["a"]))
+        kw = atom_kwargs(call["a"])
+        func = kw.pop("func", None)
+        target = getattr(target, call["m"])(func, **kw) if func is not None else getattr(target, call["m"])(**kw)
     return target
 
 
@@ -82,12 +102,13 @@ def _setup(ops: list[dict]) -> dict:
         from hypothesis import strategies as st
         from schemathesis import auths, hooks, schemas
         from schemathesis.core import NOT_SET
+        from schemathesis.generation import GenerationMode
 
         raws = {w: build_raw(ops, w) for w in ("A", "B")}
         _state.clear()
         _state.update(
             key=key, raws=raws, schemathesis=schemathesis, hooks=hooks, schemas_mod=schemas, auths=auths, st=st, given=given,
-            NOT_SET=NOT_SET,
+            NOT_SET=NOT_SET, NEGATIVE=GenerationMode.NEGATIVE,
             settings=settings(max_examples=1, database=None, derandomize=True, phases=[Phase.generate], deadline=None,
                               suppress_health_check=list(HealthCheck)),
             schemas={w: schemathesis.openapi.from_dict(raws[w]) for w in ("A", "B")},
@@ -115,7 +136,7 @@ def _fresh_schemas(st_: dict, fresh: bool) -> dict:
     return st_["schemas"]
 
 
-def _draw_all(st_: dict, schemas: dict, order: str, kw_a: dict) -> list:
+def _draw_all(st_: dict, schemas: dict, order: str, kw_a: dict, kw_b: dict | None = None) -> list:
     """One generated case per operation of the schemas named in `order` ("AB" / "BA" / "A"): strategies are built and drawn
     in that order; returns the cases in the spec's operation order (None for a schema that is not used).  Schema A is generated
     with the test-level arguments, schema B without."""
@@ -124,7 +145,7 @@ def _draw_all(st_: dict, schemas: dict, order: str, kw_a: dict) -> list:
     for which in order:
         for i, p, m in st_["idx"][which]:
             entries.append(i)
-            strategies.append(schemas[which][p][m].as_strategy(**(kw_a if which == "A" else {})))
+            strategies.append(schemas[which][p][m].as_strategy(**(kw_a if which == "A" else (kw_b or {}))))
     got: list = []
 
     @st_["given"](st_["st"].tuples(*strategies))
@@ -139,6 +160,8 @@ def _draw_all(st_: dict, schemas: dict, order: str, kw_a: dict) -> list:
 
 
 def _split(name: str) -> tuple[str, str]:
+    if name == "before_init_operation":
+        return "init", "operation"
     for c in CONTAINERS:
         if name.endswith("_" + c):
             return name[: -len(c) - 1], c
@@ -161,6 +184,9 @@ def _make_hook(h: int, name: str, own_name: bool, log: set, NOT_SET):
         def hook(context, value):
             log.add((h, context.operation.schema.raw_schema["info"]["title"], context.operation.label))
             return mark(value)
+    elif kind == "init":
+        def hook(context, operation):
+            log.add((h, operation.schema.raw_schema["info"]["title"], operation.label))
     elif kind == "filter":
         def hook(context, value):
             log.add((h, context.operation.schema.raw_schema["info"]["title"], context.operation.label))
@@ -188,8 +214,9 @@ def observe_hooks(events: list[dict], ops: list[dict], order: str = "AB", fresh:
     hooks_mod, schemas_mod = st_["hooks"], st_["schemas_mod"]
     HD, Scope = hooks_mod.HookDispatcher, hooks_mod.HookScope
     glob = HD(scope=Scope.GLOBAL)  # what `schemathesis.hooks` creates at import time
-    saved = (hooks_mod.GLOBAL_HOOK_DISPATCHER, schemas_mod.GLOBAL_HOOK_DISPATCHER)
+    saved = (hooks_mod.GLOBAL_HOOK_DISPATCHER, schemas_mod.GLOBAL_HOOK_DISPATCHER, schemas_mod.dispatch)
     hooks_mod.GLOBAL_HOOK_DISPATCHER = schemas_mod.GLOBAL_HOOK_DISPATCHER = glob
+    schemas_mod.dispatch = glob.dispatch  # `schemas.dispatch` is the global dispatcher's bound method (hooks.dispatch)
     try:
         schemas = _fresh_schemas(st_, fresh)
         schema = schemas["A"]
@@ -225,11 +252,14 @@ def observe_hooks(events: list[dict], ops: list[dict], order: str = "AB", fresh:
                 return
             h = len(functions) + 1
             form, name = e["f"], e["n"]
-            fn = _make_hook(h, name, own_name=form in ("bare", "filt_bare"), log=log, NOT_SET=st_["NOT_SET"])
+            fn = _make_hook(h, name, own_name=form in ("bare", "filt_bare", "apply_own"), log=log, NOT_SET=st_["NOT_SET"])
             functions.append(fn)
             names.append(name)
             if form == "apply":
                 schema.hooks.apply(fn, name=name)(test_function)
+                return
+            if form == "apply_own":
+                schema.hooks.apply(fn)(test_function)
                 return
             reg = registrar(e["r"])
             if form == "bare":
@@ -253,15 +283,26 @@ def observe_hooks(events: list[dict], ops: list[dict], order: str = "AB", fresh:
 
         def generate(mode: str) -> tuple[list, list]:
             log.clear()
-            kw = {"hooks": hooks_mod.HookDispatcherMark.get(test_function)} if mode == "with_test" else {}
-            cases = _draw_all(st_, schemas, order, kw)
+            with_test = mode != "without_test"
+            kw = {"hooks": hooks_mod.HookDispatcherMark.get(test_function)} if with_test else {}
+            extra = {"query": {"q": "x"}} if mode == "with_test_explicit" else (
+                {"generation_mode": st_["NEGATIVE"]} if mode == "with_test_negative" else {})
+            if "before_init_operation" in names:
+                # operations are created (and `before_init_operation` dispatched) whenever a schema is iterated; a test is bound
+                # to schema A the way `parametrize()` does it
+                for which in order:
+                    target = schemas[which]
+                    if which == "A" and with_test:
+                        target = target.clone(test_function=test_function)
+                    list(target.get_all_operations())
+            cases = _draw_all(st_, schemas, order, dict(kw, **extra), extra)
             obs, called = [], []
             for h, name in enumerate(names, 1):
                 kind, container = _split(name)
                 row_obs, row_called = [], []
                 for case, (title, label) in zip(cases, where):
                     was_called = (h, title, label) in log
-                    if kind == "filter" or case is None:
+                    if kind in ("filter", "init") or case is None:
                         seen = was_called
                     else:
                         value = case.query if container == "case" else getattr(case, container)
@@ -288,7 +329,7 @@ def observe_hooks(events: list[dict], ops: list[dict], order: str = "AB", fresh:
         all_called.append(c_)
         return {"obs": all_obs, "called": all_called, "err": 0, "exc": ""}
     finally:
-        hooks_mod.GLOBAL_HOOK_DISPATCHER, schemas_mod.GLOBAL_HOOK_DISPATCHER = saved
+        hooks_mod.GLOBAL_HOOK_DISPATCHER, schemas_mod.GLOBAL_HOOK_DISPATCHER, schemas_mod.dispatch = saved
 
 
 def observe_auth(events: list[dict], ops: list[dict], order: str = "AB", fresh: bool = False) -> list[int]:
@@ -340,6 +381,10 @@ def observe_auth(events: list[dict], ops: list[dict], order: str = "AB", fresh: 
                 apply_chain(storage(e["s"]).register(), e["chain"])(make_provider())
             elif form == "call":
                 apply_chain(storage(e["s"])(), e["chain"])(make_provider())
+            elif form == "keyed":
+                apply_chain(storage(e["s"])(cache_by_key=lambda case, context: context.operation.label), e["chain"])(make_provider())
+            elif form == "nocache":
+                apply_chain(storage(e["s"])(refresh_interval=None), e["chain"])(make_provider())
             elif form == "requests":
                 apply_chain(storage(e["s"]).set_from_requests(MarkerAuth(pid)), e["chain"])
             elif form == "apply":
@@ -410,7 +455,7 @@ def hook_signature(events: list[dict], h: int, direction: str, obs_row: list[int
             if any(r == obs_row and r != now for r in earlier):
                 return "C19:generate:not-the-hooks-in-force-at-this-generation:%s" % direction
             # every wrong cell of the row carries the answer of the same-label operation of the other schema
-            if ops is not None:
+            if ops is not None and scope == "global":  # only global extensions concern both schemas
                 wrong = [q for q in range(1, len(now) + 1) if obs_row[q - 1] != now[q - 1]]
                 if wrong and all(_twin(ops, q) and obs_row[q - 1] == now[_twin(ops, q) - 1] for q in wrong):
                     return "C19:same-label-operations-of-two-schemas:%s" % direction
@@ -472,6 +517,8 @@ def _short(events: list[dict]) -> str:
             parts.append("%s.unregister(#%d)" % (e["r"], e["t"]))
         elif e["ev"] == "gen":
             parts.append("generate(%s)" % e["f"])
+        elif e["ev"] == "reg" and e["f"] == "apply_own":
+            parts.append("test:hooks.apply(%s)" % e["n"])
         elif e["ev"] == "areg":
             parts.append("auth %s:%s[%s]" % (e["s"], e["f"], e["c"]))
         else:
@@ -526,7 +573,7 @@ def _called_without_effect(events: list[dict], res: dict) -> list[tuple[int, int
     out = []
     for j, (om, cm) in enumerate(zip(res["obs"], res["called"]), 1):
         for h, (orow, crow) in enumerate(zip(om, cm), 1):
-            if _split(names[h - 1])[0] == "filter":
+            if _split(names[h - 1])[0] in ("filter", "init"):
                 continue
             for o, (x, c) in enumerate(zip(orow, crow), 1):
                 if c == 1 and x == 0:
@@ -573,8 +620,8 @@ def run(ctx: Ctx) -> Outcome:
     global _CAT
     out = Outcome()
     rng = random.Random(ctx.seed)
-    hook_cfgs = ["Hooks_quick.cfg", "Hooks_gen_quick.cfg"] if ctx.quick else [
-        "Hooks_thorough_a.cfg", "Hooks_thorough_b.cfg", "Hooks_gen_thorough.cfg"]
+    hook_cfgs = ["Hooks_quick.cfg", "Hooks_gen_quick.cfg", "Hooks_neg_quick.cfg"] if ctx.quick else [
+        "Hooks_thorough_a.cfg", "Hooks_thorough_b.cfg", "Hooks_gen_thorough.cfg", "Hooks_neg_thorough.cfg"]
     auth_cfgs = ["HooksAuth_quick.cfg"] if ctx.quick else ["HooksAuth_thorough.cfg", "HooksAuth_thorough3.cfg"]
     states = transitions = 0
     timings: dict = {}
@@ -788,10 +835,11 @@ def selftest(ctx: Ctx) -> bool:
           {"ev": "gen", "r": "-", "f": "without_test", "c": "-", "n": "-", "t": 0},
           {"ev": "reg", "r": "global", "f": "filt_bare", "c": "C2", "n": "filter_query", "t": 0},
           {"ev": "unreg", "r": "schema", "f": "-", "c": "-", "n": "-", "t": 1}]
-    g1 = [[1, 0, 1, 0, 0, 0]]
+    # C1 = GET or operationId "pa" (schema scope: schema A only); C2 = everything without tag y (global: both schemas)
+    g1 = [[1, 1, 1, 0, 0, 0]]
     good = {"events": ev, "order": "BA", "obs": [g1, [[0] * 6, [1, 0, 1, 0, 0, 1]]], "err": 0}
     # the unregistered hook is still applied at the final generation (what it was at the first one)
-    bad1 = dict(good, obs=[g1, [[1, 0, 1, 0, 0, 0], [1, 0, 1, 0, 0, 1]]])
+    bad1 = dict(good, obs=[g1, [[1, 1, 1, 0, 0, 0], [1, 0, 1, 0, 0, 1]]])
     # the global tag filter gives schema B's operations the answers of their same-label twins of schema A
     bad2 = dict(good, obs=[g1, [[0] * 6, [1, 0, 1, 0, 1, 0]]])
     bad3 = dict(good, obs=[], err=3)  # the second registration raised
@@ -799,19 +847,19 @@ def selftest(ctx: Ctx) -> bool:
     tlc.write_json(f, [good, bad1, bad2, bad3])
     r = tlc.require_ok(tlc.run_tlc("HooksJudge", "HooksJudge.cfg", env={"OBS_FILE": f}), "selftest hooks")
     dis = sorted(tuple(p[1:]) for p in r.prints if isinstance(p, list) and p and p[0] == "DISAGREE")
-    want = sorted([(2, 2, 1, 1, "spurious"), (2, 2, 1, 3, "spurious"),
+    want = sorted([(2, 2, 1, 1, "spurious"), (2, 2, 1, 2, "spurious"), (2, 2, 1, 3, "spurious"),
                    (3, 2, 2, 5, "spurious"), (3, 2, 2, 6, "missing"),
                    (4, 0, 2, 0, "raised")])
     ok1 = dis == want
     py = sorted((i, j, h, o, d) for i, ob in enumerate([good, bad1, bad2, bad3], 1)
                 for j, h, o, d in hook_disagreements(good["obs"], ob, ev))
     ok1 = ok1 and py == want
-    aev = [{"ev": "areg", "s": "schema", "f": "register", "c": "C1"}]
+    aev = [{"ev": "areg", "s": "schema", "f": "call", "c": "C2"}]  # schema A: GET /a and GET /b carry no tag y
     tlc.write_json(f, [{"events": aev, "obs": [1, 0, 1, 0, 0, 0]}, {"events": aev, "obs": [1, 1, 1, 0, 0, 0]},
-                       {"events": aev, "obs": [0, 0, 1, 0, 0, 0]}, {"events": aev, "obs": [1, 0, 1, 0, 1, 0]}])
+                       {"events": aev, "obs": [0, 0, 1, 0, 0, 0]}, {"events": aev, "obs": [1, 0, 1, 0, 0, 1]}])
     r = tlc.require_ok(tlc.run_tlc("HooksAuthJudge", "HooksAuthJudge.cfg", env={"OBS_FILE": f}), "selftest auth")
     adis = sorted(tuple(p[1:]) for p in r.prints if isinstance(p, list) and p and p[0] == "DISAGREE")
-    ok2 = adis == [(2, 2, "unsound"), (3, 1, "incomplete"), (4, 5, "unsound")]
+    ok2 = adis == [(2, 2, "unsound"), (3, 1, "incomplete"), (4, 6, "unsound")]
     # and the replay machinery itself distinguishes hooks, generations and schemas
     cat_res, items, cat = _enumerate("HooksAuth", "HooksAuth_quick.cfg")
     r2 = observe_hooks(concretise(ev, cat), cat["ops"], "BA", fresh=True)
